@@ -17,10 +17,12 @@ type rule struct {
 // keys of the recorded root causes (known_findings.jsonl)
 const (
 	keyNegShift     = "shift-negative-count-no-panic"
-	keyC64Const     = "complex64-constant-not-rounded"
+	keyC64Const     = "complex64-typed-constant-not-rounded"
+	keyC64Lit       = "complex64-literal-not-rounded-in-assignment"
 	keyFloatDivZero = "float-division-by-constant-zero-rejected"
 	keyUintptrInc   = "uintptr-incdec-ends-function"
 	keyShiftCmp     = "untyped-const-shift-in-comparison-ends-function"
+	keyNegZeroArg   = "negzero-call-argument"
 )
 
 func isShift(op string) bool { return op == "shl" || op == "shr" }
@@ -56,16 +58,29 @@ func inexactFloat32Parts(disp string) bool {
 }
 
 var rules = []rule{
+	// a negative zero passed as argument to an interpreted function; the
+	// generated programs avoid it by construction (operands are loaded from
+	// tables, results printed in place), only the stored replay has this cell
+	{keyNegZeroArg, func(c Cell, nat, ya, sym string) bool {
+		return c.Op == "arg" && sym == "value" && strings.HasPrefix(c.X, "-0")
+	}},
 	// a negative variable shift count (signed count kind) yields a value
 	// instead of a run-time panic: every left kind, var-var and constant-left
 	// forms, every context
 	{keyNegShift, func(c Cell, nat, ya, sym string) bool {
 		return isShift(c.Op) && sym == "no-panic" && signedKind(c.Kind2) && strings.HasPrefix(countOperand(c), "-")
 	}},
-	// a complex64 literal or typed constant whose parts are not float32
-	// values in decimal is used with float64 precision
+	// a typed complex64 constant whose parts are not float32 values in
+	// decimal is used with float64 precision: every operator, both operand
+	// positions, every context
 	{keyC64Const, func(c Cell, nat, ya, sym string) bool {
-		return c.Kind == "complex64" && sym == "value" && hasConstForm(c.Forms, "lc") && inexactFloat32Parts(c.Y)
+		return c.Kind == "complex64" && sym == "value" && hasConstForm(c.Forms, "c") && inexactFloat32Parts(c.Y)
+	}},
+	// the same for a complex literal operand when the result is assigned to
+	// an existing variable (r = a op lit, r op= lit; the if context computes
+	// its reference value that way)
+	{keyC64Lit, func(c Cell, nat, ya, sym string) bool {
+		return c.Kind == "complex64" && sym == "value" && hasConstForm(c.Forms, "l") && (c.Ctx == "as" || c.Ctx == "opas" || c.Ctx == "if") && inexactFloat32Parts(c.Y)
 	}},
 	// x / 0 with a float or complex variable x and an untyped constant zero
 	{keyFloatDivZero, func(c Cell, nat, ya, sym string) bool {
